@@ -426,8 +426,13 @@ class AutoSerialize:
         elif isinstance(value, (int, float, str, bool, type(None))):
             # Scalars saved as attributes
             group.attrs[name] = value
-        elif hasattr(value, "dtype") and hasattr(value, "item"):
+        elif (
+            hasattr(value, "dtype")
+            and hasattr(value, "item")
+            and not isinstance(value, np.complexfloating)
+        ):
             # Handle numpy scalar types (np.float32, np.int64, etc.)
+            # (complex scalars are not JSON-serializable: they take the dill fallback below)
             group.attrs[name] = value.item()
         elif hasattr(value, "__fspath__") or str(type(value)).startswith("<class 'pathlib."):
             # Handle pathlib.Path objects and other path-like objects
@@ -865,6 +870,12 @@ class AutoSerialize:
         # Helper to handle optional torch tensor restoration
         def maybe_tensor(group, key):
             arr = AutoSerialize._read_array_np(group, key)
+            # dill-fallback payloads are stored as byte arrays, as in _recursive_load
+            if arr.dtype == np.uint8 and arr.ndim == 1:
+                try:
+                    return dill.loads(gzip.decompress(arr.tobytes()))
+                except Exception:
+                    pass
             return torch.from_numpy(arr) if group.attrs.get(f"{key}.torch_save") else arr
 
         if ctype in ("list", "tuple"):
